@@ -60,7 +60,7 @@ func (w *World) partialStep(st *Step) {
 	switch st.A {
 	case "mod", "badmod":
 		hashes = w.leafHashes(st.D)
-	case "vrem", "ingest", "prune":
+	case "vrem", "ingest", "prune", "badvrem":
 		hashes = w.leafHashes(st.S)
 	case "undo":
 		hashes = w.leafHashes(st.D)
@@ -135,6 +135,41 @@ func (w *World) partialStep(st *Step) {
 					utreexo.Proof{Targets: g.U("proof.Targets", proof.Targets), Proof: g.H("proof.Proof", proof.Proof)})
 				if e == nil {
 					w.fail(props, in, "badmod.accepted", "a block deleting a leaf that the partial forest does not remember was applied", "error", "nil")
+				}
+			case "badvrem":
+				// an honest proof with one hash replaced: both remembering verifications must refuse it
+				bh := append([]Hash{}, hashes...)
+				bp := append([]Hash{}, proof.Proof...)
+				if st.Bad == "leafhash" {
+					bh[0] = w.sy.H(junkTerm(7))
+				} else {
+					bp[0] = w.sy.H(junkTerm(7))
+				}
+				if e := in.M.Verify(g.H("delHashes", bh), utreexo.Proof{Targets: g.U("proof.Targets", proof.Targets), Proof: g.H("proof.Proof", bp)}, true); e == nil {
+					w.fail([]string{"C03"}, in, "unsound", "Verify(remember) accepted a proof in which the "+st.Bad+" was replaced by a fresh value", "error", "nil")
+				}
+				// the partial entry point: the hashes for the positions the instance says it lacks
+				sorted := append([]uint64{}, proof.Targets...)
+				sort.Slice(sorted, func(a, b int) bool { return sorted[a] < sorted[b] })
+				missing := in.M.GetMissingPositions(sorted)
+				all, _ := utreexo.ProofPositions(sorted, w.n, R)
+				if in.M.TotalRows != R {
+					for i := range all {
+						all[i] = utreexo.VerifTranslatePos(all[i], R, in.M.TotalRows)
+					}
+				}
+				var ph []Hash
+				for _, mpos := range missing {
+					for i, ap := range all {
+						if ap == mpos && i < len(bp) {
+							ph = append(ph, bp[i])
+						}
+					}
+				}
+				if len(ph) == len(missing) && (st.Bad == "leafhash" || (len(missing) > 0 && all[0] == missing[0])) {
+					if e := in.M.VerifyPartialProof(g.U("targets", proof.Targets), g.H("hashes", bh), g.H("proofHashes", ph), true); e == nil {
+						w.fail([]string{"C03"}, in, "unsound", "VerifyPartialProof(remember) accepted a proof in which the "+st.Bad+" was replaced by a fresh value", "error", "nil")
+					}
 				}
 			case "vrem":
 				err = in.M.Verify(g.H("delHashes", hashes),
